@@ -273,6 +273,13 @@ func (n *nodeRT) compute(ctx context.Context, ctl *RunCtl, e *Exec, in any) (out
 	case PanicNilDeref:
 		var p *NodeSpec
 		_ = p.Key // nil dereference
+	case FailMidStream:
+		// forms that do not produce a stream themselves (and the lazy transform, whose goroutine
+		// reports errors as one error item) fail with a plain error; S and the synchronous T put the
+		// error item in the middle of their output (see emit)
+		if e.Para == "I" || e.Para == "C" || (e.Para == "T" && n.spec.Lazy) {
+			return nil, fmt.Errorf("node %s mid-stream: %w", n.key, ErrSentinel)
+		}
 	}
 	switch n.spec.Kind {
 	case Hash:
